@@ -33,8 +33,18 @@ def run(chk, replay=None):
                 "the client's header mapping and (b) through a real chainsync Server.RollForward -> real client "
                 "callback over two ouroboros.Connection objects on net.Pipe, with the decoded and the raw callback; "
                 "delivered type, bytes, wire era and header hash vs Block.Hash() are compared with the row. "
-                "A case is (fixture, mode, path); non-trivial when the property states the outcome.")
+                "History dimension (ChainSyncServe.tla): the state machine of 2 and 3 serve operations with every "
+                "interleaving of their construct / encode steps, invariant 'what is encoded for operation i is block "
+                "i'; every complete history x same-era (block, one-byte sibling) and cross-era block assignment is "
+                "executed step by step in one goroutine on NewMsgRollForwardNtC/NtN -> cbor.Encode -> client decode, "
+                "and two connections are served concurrently through real engines (fixtures vs siblings); a "
+                "disagreement is only a real type / byte / hash mismatch of what arrived. "
+                "A case is (fixture, mode, path) or (history, operation); non-trivial when the property states the outcome.")
     chk.assumptions = [
+        "state shared between message constructions (e.g. a sync.Pool scratch buffer) is only observable when the "
+        "runtime hands the same memory back: the constructor-level histories run in one goroutine on one P without GC "
+        "between steps to make that repeatable; the two-connection engine run is scheduler dependent; a missed reuse "
+        "is a pass, never a violation",
         "Block.Hash() of the block decoded as its own type is the block's identity (cross-checked with "
         "Blake2b-256 of the header bytes for Shelley-or-later blocks)",
         "Byron blocks over node-to-node are not stated by the property (Server.RollForward refuses them, the "
@@ -63,6 +73,30 @@ def run(chk, replay=None):
     if not os.path.exists(cases):
         raise vlib.MachineryError("TLC wrote no cases22.ndjson")
     vlib.run_driver(chk, drv, ["replay22", vlib.REPO, cases], timeout=300)
+    serve_histories(chk, drv, thorough)
     if thorough:
         tb_common.self_test(chk, "ledger/EraDispatch", cfg, tables, corruptions())
     chk.exhaustive = False
+
+
+def serve_histories(chk, drv, thorough):
+    """History dimension (spec/ledger/ChainSyncServe.tla): interleaved construct / encode steps of 2 and 3 serve
+    operations; TLC checks OwnContent on the state machine and emits every complete history x block assignment."""
+    files = []
+    for c in ("ChainSyncServe2.cfg", "ChainSyncServe3Thorough.cfg" if thorough else "ChainSyncServe3.cfg"):
+        r = vlib.run_tlc("ledger/ChainSyncServe", cfg=c, timeout=240)
+        vlib.tlc_must_pass(r, c)
+        chk.add_tlc(c, r)
+        p = os.path.join(r.dir, "serve22.ndjson")
+        if not os.path.exists(p):
+            raise vlib.MachineryError("TLC wrote no serve22.ndjson (%s)" % c)
+        files.append(p)
+    if thorough:
+        # vacuity: in the defective design (messages refer to a shared scratch area) TLC must find the
+        # construct-construct-encode counterexample
+        r = vlib.run_tlc("ledger/ChainSyncServe", cfg="ChainSyncServe2Defect.cfg", timeout=120)
+        if r.ok or not (r.violation and "OwnContent" in r.violation):
+            raise vlib.MachineryError("ChainSyncServe: SharedScratch=TRUE does not violate OwnContent: %s"
+                                      % (r.violation or r.error))
+        chk.extra["c22_shared_scratch_counterexample_found_by_tlc"] = True
+    vlib.run_driver(chk, drv, ["serve22", vlib.REPO] + files, timeout=600)
